@@ -69,4 +69,25 @@ PROPS = {
                         "package and file names are ASCII where the casing helpers look at them",
                         "override rules are built by bufconfig's constructors (value type matches the option)"],
     },
+    "C08": {
+        "harness": "c08", "protocol": "c08", "level": "proof", "stateful": False,
+        "gen": [{"cmd": ["c08", "gen-consts"], "out": "BufGen/ConstsC08.lean"}],
+        "rule": "Section M: generated file-node sets (paths with spaces incl. double spaces, unicode, dots, hostile spellings, duplicates) through NewFileNode/NewManifest/String/ParseManifest, plus mutated manifest and file-node texts through the parsers. Section D: generated file sets (module files, doc/license variants, extra non-module files, arbitrary bytes, empty files; all subsets of a 6-path alphabet) with dependency digest sets through Module.Digest(b5/b4); each case is re-evaluated on memory / disk / tar round trip / shuffled-walk buckets, under name, commit, targeting and non-module-file changes (must be equal) and under single-byte, single-path and single-dependency perturbations (must differ), and compared with an independent SHAKE256 recomputation of the published construction. Section G: module sets of local modules importing each other and remote modules with pinned dependency keys. A line is non-trivial when the manifest has >= 2 nodes / the text is a parser input / the file set has a module file and also a non-module file or a dependency; distinct = distinct protocol lines.",
+        "trusted_base": COMMON_TB + ["SHAKE256 (golang.org/x/crypto/sha3) is a parameter H of the model; the driver receives H as a table computed by the harness; collision resistance is a hypothesis of the sensitivity theorems, not proved",
+                                     "Go string order = code point order on valid UTF-8 (paths are valid UTF-8; file contents are arbitrary bytes)",
+                                     "translator `c08 gen-consts` (go/ast over bufmodule/paths.go) regenerates lean/BufGen/ConstsC08.lean",
+                                     "import resolution of local modules (Module.ModuleDeps) is an input of the module-graph model (modelled under C10)"],
+        "assumptions": ["paths are valid UTF-8", "H does not collide on the inputs compared (sensitivity theorems only)", "a bucket is a path -> bytes map (unique paths); no path contains U+000A (known finding otherwise)"],
+    },
+    "C06": {
+        "harness": "c06", "protocol": "c06", "level": "proof", "stateful": False,
+        "extra_cmds": ["c06gen"],
+        "gen": [{"cmd": ["c06gen"], "out": "BufGen/RuleTables.lean"}],
+        "rule": "Section A: Client.ConfiguredRules under generated check configurations (0-4 use / 0-3 except / 0-2 ignore_only entries drawn from the live rule ids of the type, the live categories, deprecated ids, ids of the other type, unknown and blank ids; good, string-prefix-trap, unnormalised and invalid ignore paths; v1beta1/v1/v2; through bufconfig.NewEnabledCheckConfig and raw) vs the Lean newRulesConfig over the regenerated tables. Sections B/C: Client.Lint / Client.Breaking on images compiled in-process from generated sources (two directories, import-only file, WKT import, unstable package, buf:lint:ignore comments in 10 spellings on every enclosing level) under generated configurations, vs the model fed with the single-rule annotation sets measured at the check.Client level. A line is non-trivial when the configuration is rejected, selects a non-default rule set, or reports at least one annotation; distinct = distinct protocol lines.",
+        "trusted_base": COMMON_TB + ["rule HANDLERS are not modelled: the model is fed, per image, what each rule reports when run alone (measured on the implementation; the harness cross-checks the measurement against bufcheck.Client runs of use=[rule])",
+                                     "translator harness/cmd/c06gen (prints check.NewClientForSpec(spec).ListRules/ListCategories as Lean literals)",
+                                     "protoversion (stable / unstable package) and protobuf-go SourceLocations.ByPath are parameters of the model",
+                                     "bufanalysis dedup: SHA-256 taken as injective on the concatenated key"],
+        "assumptions": ["no check plugins configured (builtin rules only)", "lint options other than allow_comment_ignores at their defaults", "strings are valid UTF-8"],
+    },
 }
